@@ -18,7 +18,7 @@ from vlib import *
 
 PID = 'C03'
 THEOREMS = ['C03_switch_dispatch', 'C03_case_value_stored', 'C03_innermost_binding', 'C03_latest_declaration', 'C03_block_scope_restores', 'C03_name_spaces_separate', 'C03_nonvacuous',
-            'C03_lowering_simulation', 'C03_lowered_program', 'C03_target_deterministic', 'C03_lowering_nonvacuous']
+            'C03_lowering_simulation', 'C03_lowered_program', 'C03_target_deterministic', 'C03_lowering_nonvacuous', 'C03_shortcircuit_lowering']
 MODELRUN = os.path.join(VERIF, 'ocaml/modelrun')
 
 CTYPES = [('signed char', 8, True), ('unsigned char', 8, False), ('short', 16, True), ('unsigned short', 16, False), ('int', 32, True), ('unsigned int', 32, False),
@@ -291,7 +291,7 @@ def main():
         run.proof_broken.append('scratch build of /repo failed: ' + str(e)[-800:])
         return run.finish(dict(evaluations=0), [], [])
     wd = scratch_dir()
-    run.check_proofs(deps=['theories/Model/Control.vo', 'theories/Proofs/ControlProofs.vo', 'theories/Model/Lowering.vo', 'theories/Proofs/LoweringProofs.vo'])
+    run.check_proofs(deps=['theories/Model/Control.vo', 'theories/Proofs/ControlProofs.vo', 'theories/Model/Lowering.vo', 'theories/Proofs/LoweringProofs.vo', 'theories/Model/ExprFlat.vo', 'theories/Proofs/ExprFlatProofs.vo'])
     rc, o, e = sh([os.path.join(VERIF, 'ocaml/build.sh')], timeout=900)
     if rc != 0:
         run.corr_broken.append('extracted model does not build: ' + (o + e)[-300:])
@@ -426,7 +426,7 @@ def main():
         ['gcc 12 -O0 is the reference for execution traces and bindings; generated programs have no unspecified evaluation order between markers',
          'a switch on a type narrower than int is compared after promotion to int (C11 6.8.4.2p5)'],
         ['Coq 8.16.1 kernel, no axioms', 'hand-written Model/Control.v (dispatch chain of gen_stmt(ND_SWITCH) with the case values as parse.c stores them; scope stack of parse.c) tied by (a) and (c)',
-         'hand-written Model/Lowering.v (gen_stmt for if / for / while / do / break / continue as absolute-position jump code; oracle-driven structured semantics) tied by (d): emitted jump code compared instruction by instruction, runs compared on fixed outcomes', 'switch fall-through, goto, computed goto and the short-circuit operators are NOT in the lowering model: they are covered by the trace differential (b) only; label uniqueness (count()) is observed through (d), not proved'])
+         'hand-written Model/Lowering.v (gen_stmt for if / for / while / do / break / continue as absolute-position jump code; oracle-driven structured semantics) tied by (d): emitted jump code compared instruction by instruction, runs compared on fixed outcomes', 'Model/ExprFlat.v (jump code of && || ?: with labels as positions) is tied by the C01 check: the -S text of generated expression trees = extracted gflatten (compile e)', 'switch fall-through, goto and computed goto are NOT in the lowering model: they are covered by the trace differential (b) only; label uniqueness (count()) is observed through (d), not proved'])
 
 if __name__ == '__main__':
     sys.exit(main())
